@@ -621,6 +621,7 @@ func rulesC15(p *Prog, r *Report) {
 		}
 		r.Info["panic_source_inventory_informational"] = ded
 	}()
+	windowChecked := map[*ssa.Function]bool{}
 	for _, h := range hooks {
 		unwrapped := p.Reachable([]*ssa.Function{h.Fn}, func(f *ssa.Function) bool { return unitClosure[f] || f == af || p.isAuxFn(f) })
 		var fs []*ssa.Function
@@ -641,6 +642,54 @@ func rulesC15(p *Prog, r *Report) {
 						}
 						if (x.Low == nil || isConst(x.Low)) && (x.High == nil || isConst(x.High)) {
 							continue
+						}
+						// bounds computed by a window helper: the helper does no arithmetic on a parameter
+						// that may be negative (its arguments are uint64 parameters converted to int)
+						var bnds []ssa.Value
+						for _, bnd := range []ssa.Value{x.Low, x.High} {
+							if bnd != nil {
+								bnds = append(bnds, phiAlternatives(bnd)...)
+							}
+						}
+						for _, bnd := range bnds {
+							if cv, isCv := bnd.(*ssa.Convert); isCv {
+								bnd = cv.X
+							}
+							ex, isEx := bnd.(*ssa.Extract)
+							if !isEx {
+								continue
+							}
+							hc, isCall := ex.Tuple.(*ssa.Call)
+							if !isCall {
+								continue
+							}
+							h := hc.Call.StaticCallee()
+							if h == nil || !isComdexFn(h) || len(h.Blocks) == 0 || windowChecked[h] {
+								continue
+							}
+							windowChecked[h] = true
+							for _, hb := range h.Blocks {
+								for _, hin := range hb.Instrs {
+									bo, isBo := hin.(*ssa.BinOp)
+									if !isBo || (bo.Op != token.ADD && bo.Op != token.SUB) {
+										continue
+									}
+									for _, opnd := range []ssa.Value{bo.X, bo.Y} {
+										pr, isP := opnd.(*ssa.Parameter)
+										if !isP {
+											continue
+										}
+										r.Instance("R15.4")
+										construct := fmt.Sprintf("%s arithmetic on %s", fname(h), pr.Name())
+										g := p.cmpGuard(pr.Name()+" >= 0", func(v ssa.Value) bool { return v == ssa.Value(pr) }, isZeroValue, RGE)
+										if ok, w := p.GuardedSite(g, bo); ok {
+											r.OK("R15.4", construct, "only behind "+pr.Name()+" >= 0", p.instrPos(bo))
+										} else {
+											r.Fail("R15.4", construct, "the window helper whose results bound a slice in an unwrapped hook adds a parameter that was not tested non-negative (its argument is a uint64 parameter converted to int): a value of 2^63 or more yields end < start and the slice expression panics outside any recover", p.instrPos(bo), w)
+										}
+									}
+								}
+							}
 						}
 						r.Instance("R15.4")
 						construct := fmt.Sprintf("%s slice %s", fname(f), sliceDesc(x))
